@@ -224,7 +224,7 @@ impl CountComputer {
 
                     scope.spawn(move |_| {
                         #[cfg(kmertools_verif)]
-                        ktio::verif::point("task.start", chunk);
+                        ktio::verif::point("task.start.id", chunk);
                         let path =
                             format!("{}/temp_kmers.part_{}_chunk_{}", self.out_dir, part, chunk);
                         let file = fs::File::open(&path).unwrap();
